@@ -113,7 +113,7 @@ Proof.
   destruct (idx_find (r_key r) (rs_idx st)) as [ex|] eqn:F.
   - destruct (N.ltb_spec (r_ts r) (e_ts ex)) as [Hlt|Hge].
     + (* an older generation: queued for retirement, nothing else changes *)
-      eexists. split; [apply (scan_step_retires_an_older_generation version sector r K0 Hf V0 Vmax Ts Ex c total st jl rest' Hrw Kmax Hin' ex F Hlt)|].
+      eexists. split; [apply (scan_step_retires_an_older_generation version sector r K0 Hf V0 Vmax Ts Ex c total st jl rest' Kmax Hin' ex Hrw F Hlt)|].
       fold (need_of version r). split; [|split; [reflexivity|cbn [rs_last_end]; lia]].
       constructor; cbn [rs_fs rs_last_end rs_idx]; try assumption. lia.
     + (* a generation at least as new: the indexed one is released and queued, the entry replaced *)
@@ -146,7 +146,7 @@ Proof.
           intros b. rewrite F1. unfold in_ext. split; [intros [H|H]; [left; exact H|right; left; exact H]|intros [H|[H|H]]; [left; exact H|right; exact H|lia]]. }
       destruct G as (st4 & G4 & Gi & Gc & Gr & GI & GD & GF).
       eexists. split.
-      { apply (scan_step_replaces_explicit version sector r K0 Hf V0 Vmax Ts Ex c total st jl rest' Hrw Kmax Hin' ex st1 st4 F Hge R1). exact G4. }
+      { apply (scan_step_replaces_explicit version sector r K0 Hf V0 Vmax Ts Ex c total st jl rest' Kmax Hin' ex st1 st4 Hrw F Hge R1). exact G4. }
       fold (need_of version r). cbn [rs_idx rs_retired rs_count rs_last_end rs_fs].
       split; [|split; [rewrite Gi, Gr, Gc; reflexivity|lia]].
       constructor; cbn [rs_fs rs_last_end rs_idx]; try assumption; try lia.
@@ -175,7 +175,7 @@ Proof.
     assert (SI : SInv total sector st) by (constructor; try assumption; intros b Hb; exact (proj1 (Fr b Hb))).
     destruct (gap_release total sector st SI ltac:(lia)) as (st4 & G & Gi & Gc & Gr & GI & GD & GF).
     eexists. split.
-    { apply (scan_step_accepts_encoded_record version sector r K0 Hf V0 Vmax Ts Ex c total st jl rest' Hrw Kmax Hin' st4 F G). }
+    { apply (scan_step_accepts_encoded_record version sector r K0 Hf V0 Vmax Ts Ex c total st jl rest' Kmax Hin' st4 (or_introl Hrw) F G). }
     fold (need_of version r). cbn [rs_idx rs_retired rs_count rs_last_end rs_fs].
     split; [|split; [rewrite Gi, Gr, Gc; reflexivity|lia]].
     constructor; cbn [rs_fs rs_last_end rs_idx]; try assumption; try lia.
@@ -229,7 +229,7 @@ Proof.
       cbn [bind]. destruct (N.leb_spec (sector + n) sector); [lia|].
       assert (J1 : SJ total (sector + n) st) by (destruct J; constructor; try assumption; lia).
       exact (IH f (sector + n) st Ht J1 Hskip ltac:(lia) Hf').
-    + cbn [app]. rewrite (scan_step_skips_a_zero_block c version total sector st jl _ Hrw).
+    + cbn [app]. rewrite (scan_step_skips_a_zero_block c version total sector st jl _ (or_introl Hrw)).
       cbn [bind]. destruct (N.leb_spec (sector + 1) sector); [lia|].
       assert (J1 : SJ total (sector + 1) st) by (destruct J; constructor; try assumption; lia).
       exact (IH f (sector + 1) st Ht J1 Hskip ltac:(lia) Hf').
